@@ -27,7 +27,8 @@ def src_path(reg, src_dir):
     return os.path.join(src_dir, os.path.basename(reg.file))
 
 
-def run_functions(prop, contract_module, function_names, kinds='all', src_dir=None, timeout_ms=None, replay=True, c_file=None, configs=None):
+def run_functions(prop, contract_module, function_names, kinds='all', src_dir=None, timeout_ms=None, replay=True, c_file=None, configs=None,
+                  shard=None):
     from .clang_ast import TU, FrontEndError
     from .verify import verify_function, SAFETY_KINDS, FUNCTIONAL_KINDS
     from . import replay as rp
@@ -50,7 +51,7 @@ def run_functions(prop, contract_module, function_names, kinds='all', src_dir=No
     used = set()
     for fn in function_names:
         fe, res = verify_function(tu, reg, fn, prop=prop, timeout_ms=timeout_ms, kinds=ks, replayer=rp.replay_violation if replay else None,
-                                  only_configs=configs)
+                                  only_configs=configs, shard=shard)
         out['functions'].append(fe)
         out['results'] += res
         used.update(fe.get('callee_contracts_used', []))
@@ -63,42 +64,68 @@ def run_functions(prop, contract_module, function_names, kinds='all', src_dir=No
 
 
 def c_unit(prop, uid, contract_module, function_names, kinds='all', src_dir=None, timeout_ms=None, tiers=('quick', 'thorough'), weight=1,
-           configs=None):
-    """one runner unit verifying the listed functions of one C file (all configurations of their contracts, or only the
-    named ones: heavy functions are spread over several units, see plan())"""
+           configs=None, shard=None):
+    """one runner unit verifying the listed functions of one C file: all configurations of their contracts or only the named
+    ones; shard=(i, n) discharges only the i-th of n shares of the obligations (heavy functions are spread over several units)"""
     fns = list(function_names)
 
     def run():
-        return run_functions(prop, contract_module, fns, kinds, src_dir, timeout_ms, configs=configs)
+        return run_functions(prop, contract_module, fns, kinds, src_dir, timeout_ms, configs=configs, shard=shard)
     return Unit(uid, run, 'cvc', tiers, weight)
 
 
-def plan(contract_module, function_names=None, chunk_seconds=25):
-    """[(function, [config names] | None, weight)]: the work of a contract module cut into pieces of roughly equal cost
-    (weights from the registry's `cost` hints: seconds per configuration)"""
+UNIT_SECONDS = 60        # planned cpu seconds of one unit (costs are per configuration, measured on an idle machine)
+
+
+def plan(contract_module, function_names=None, chunk_seconds=UNIT_SECONDS):
+    """[(function, [config names] | None, shard | None, weight, tiers)].
+
+    Every function appears in tier `quick` with its representative configurations (`quick=[...]` in the contract; default: the
+    first one) and in tier `thorough` with all of them; work is cut into units of about chunk_seconds using the contract's
+    `cost` (seconds per configuration); a single configuration above the limit is sharded by obligation."""
     reg = load_registry(contract_module)
     out = []
     for fn, c in reg.contracts.items():
-        if c.abstract or (function_names is not None and fn not in function_names):
+        if c.abstract or (c.inline and not c.ensures) or (function_names is not None and fn not in function_names):
             continue
-        per = getattr(c, 'cost', None) or 1.0
+        per = float(getattr(c, 'cost', None) or 1.0)
+        cost = {cfg.get('name', 'default'): float(cfg.get('cost', per)) for cfg in c.configs}
         names = [cfg.get('name', 'default') for cfg in c.configs]
-        if len(names) == 1 or per * len(names) <= chunk_seconds:
-            out.append((fn, None, per * len(names)))
-            continue
-        k = max(1, int(chunk_seconds / per))
-        for i in range(0, len(names), k):
-            out.append((fn, names[i:i + k], per * len(names[i:i + k])))
+        quick = [n for n in (getattr(c, 'quick', None) or names[:1]) if n in names]
+        if sum(cost.values()) <= chunk_seconds:
+            quick = names          # cheap: everything in both tiers
+        rest = [n for n in names if n not in quick]
+        for group, tiers in ((quick, ('quick', 'thorough')), (rest, ('thorough',))):
+            cur, cur_cost = [], 0.0
+            for n in group:
+                if cost[n] > chunk_seconds:
+                    nsh = int(-(-cost[n] // chunk_seconds))
+                    for i in range(nsh):
+                        out.append((fn, [n], (i, nsh), cost[n] / nsh, tiers))
+                    continue
+                if cur and cur_cost + cost[n] > chunk_seconds:
+                    out.append((fn, cur, None, cur_cost, tiers))
+                    cur, cur_cost = [], 0.0
+                cur.append(n)
+                cur_cost += cost[n]
+            if cur:
+                out.append((fn, cur, None, cur_cost, tiers))
     return out
 
 
-def c_units(prop, contract_module, function_names=None, kinds='all', src_dir=None, timeout_ms=None, tiers=('quick', 'thorough')):
-    """the units of a whole contract module, heavy functions split by configuration"""
+def c_units(prop, contract_module, function_names=None, kinds='all', src_dir=None, timeout_ms=None, tiers=None):
+    """the units of a whole contract module (see plan()); `tiers` overrides the planned tiers"""
     reg = load_registry(contract_module)
     us = []
-    for fn, cfgs, w in plan(contract_module, function_names):
-        uid = '%s.%s' % (reg.area, fn) + ('' if cfgs is None else '[%s..%s]' % (cfgs[0], cfgs[-1]))
-        us.append(c_unit(prop, uid, contract_module, [fn], kinds, src_dir, timeout_ms, tiers, weight=w, configs=cfgs))
+    for fn, cfgs, shard, w, tr in plan(contract_module, function_names):
+        uid = '%s.%s' % (reg.area, fn)
+        if cfgs is not None and len(reg.contracts[fn].configs) > 1:
+            uid += '[%s]' % (cfgs[0] if len(cfgs) == 1 else '%s..%s' % (cfgs[0], cfgs[-1]))
+        if shard is not None:
+            uid += '#%d/%d' % (shard[0] + 1, shard[1])
+        if kinds != 'all':
+            uid += ':' + kinds
+        us.append(c_unit(prop, uid, contract_module, [fn], kinds, src_dir, timeout_ms, tiers or tr, weight=w, configs=cfgs, shard=shard))
     return us
 
 
